@@ -99,6 +99,11 @@ where
     where
         FuncType: BasisFunction<ScalarType, ArgList> + 'static,
     {
+        // an error that was recorded earlier (e.g. for an invalid list of function
+        // parameters) must not be replaced by an error about this derivative
+        if self.model_function_result.is_err() {
+            return self;
+        }
         //this makes sure that the index of the derivative is calculated with respect to the
         //model parameter list while also making sure that the given derivative exists in the function
         //parameters
